@@ -21,6 +21,7 @@ package main
 import (
 	"bufio"
 	"context"
+	"encoding/hex"
 	"fmt"
 	"io"
 	"os"
@@ -72,6 +73,22 @@ func outcome(p []string) string {
 	_ = fmt.Sprintf("%v", v) // fu.Repr, as arrai.OutputValue and the shell do
 	_ = hlib.Canon(v)
 	return "value"
+}
+
+// survive: like outcome, but the observable does not distinguish a value from an error.
+func survive(p []string) string {
+	outcome(p)
+	return "ok"
+}
+
+// surviveb: payload[0] = hex of arbitrary bytes offered as source text.
+func surviveb(p []string) string {
+	b, err := hex.DecodeString(p[0])
+	if err != nil {
+		return "harness-error:bad hex"
+	}
+	outcome([]string{string(b)})
+	return "ok"
 }
 
 func childMain() {
@@ -272,6 +289,8 @@ func supervisorMain() {
 func main() {
 	if os.Getenv("C10_CHILD") == "1" {
 		hlib.Register("outcome", outcome)
+		hlib.Register("survive", survive)
+		hlib.Register("surviveb", surviveb)
 		childMain()
 		return
 	}
